@@ -129,6 +129,7 @@ def run(ctx):
     _thumb_scaled_offsets(ctx)
     _x86_high_byte_registers(ctx)
     _x86_opcode_extensions(ctx)
+    _x86_factory_widths(ctx)
     arm_addressing_bits(ctx, "C08.R9")
 
 
@@ -589,6 +590,43 @@ def _x86_opcode_extensions(ctx):
         n += 1
         ctx.ob("C08.R14", "%s:%s" % (rel, cls.name), "`%s` with opcode 0x%02X (group %d) uses /%s" % (mn, opc, g, table.get(mn, "?")), table.get(mn) == _tc8(r[0]), construct="ext:%s:%s" % (cls.name, mn), node=cls, detail="written: r = %d" % _tc8(r[0]))
     ctx.need(n >= 12, "x86 opcode-extension sites: %d found, 15 confirmed by reading" % n)
+
+
+def _x86_factory_widths(ctx):
+    """R15.  The x86-64 operand size is chosen by REX.W (64 bit), no prefix (32 bit) or the 0x66 prefix (16 bit); it comes from the
+    `patterns` of the base class a factory builds its instruction on.  A factory make_*32 that builds on the 64-bit base prints `not ecx`
+    and encodes `not rcx` (and a memory operand is read and written 8 bytes wide)."""
+    ctx.rule("C08.R15", "x86-64 instruction factories: make_*64 builds on a base class with REX.W = 1, make_*32 on one with W = 0 and no prefix, make_*16 on one with W = 0 and the 0x66 operand-size prefix", floor=8)
+    rel = "ppci/arch/x86_64/instructions.py"
+    mod = ctx.project.module(rel)
+    classes = {c.name: c for c in mod.tree.body if isinstance(c, ast.ClassDef)}
+    def size_of(name, depth=0):
+        """(w, prefix) the class chain fixes, or None"""
+        cls = classes.get(name)
+        if cls is None or depth > 5:
+            return None
+        for st in cls.body:
+            if isinstance(st, ast.Assign) and norm(st.targets[0]) == "patterns" and isinstance(st.value, ast.Dict):
+                d = {_tc8(k): _tc8(v) for k, v in zip(st.value.keys, st.value.values)}
+                if "w" in d or "prefix" in d:
+                    return (d.get("w", 0), d.get("prefix"))      # a token field that no pattern sets stays 0
+        for b in cls.bases:
+            r = size_of(norm(b), depth + 1)
+            if r is not None:
+                return r
+        return None
+    want = {"64": (1, None), "32": (0, None), "16": (0, 0x66)}
+    n = 0
+    for fn in [f for f in mod.tree.body if isinstance(f, ast.FunctionDef) and f.name.startswith("make_") and f.name[-2:] in want]:
+        ty = [c for c in ast.walk(fn) if isinstance(c, ast.Call) and norm(c.func) == "type" and len(c.args) == 3 and isinstance(c.args[1], ast.Tuple) and c.args[1].elts]
+        if not ty:
+            continue
+        base = norm(ty[0].args[1].elts[0])
+        got = size_of(base)
+        n += 1
+        ctx.ob("C08.R15", "%s:%s" % (rel, fn.name), "%s builds on a base class of operand size %s" % (fn.name, fn.name[-2:]), got == want[fn.name[-2:]], construct="factory-width:" + fn.name, node=ty[0],
+               detail="base %s fixes (W, prefix) = %s" % (base, got))
+    ctx.need(n >= 8, "x86 factories with a width suffix: %d found, 9 confirmed by reading" % n)
 
 
 def arm_addressing_bits(ctx, rid):
